@@ -372,6 +372,11 @@ YR_API void yr_scanner_destroy(YR_SCANNER* scanner)
   yr_free(scanner->profiling_info);
 #endif
 
+  // Not NULL only if the last scan returned ERROR_BLOCK_NOT_READY and was
+  // never resumed.
+  if (scanner->matches_notebook != NULL)
+    yr_notebook_destroy(scanner->matches_notebook);
+
   yr_free(scanner->rule_matches_flags);
   yr_free(scanner->ns_unsatisfied_flags);
   yr_free(scanner->required_eval);
@@ -499,6 +504,15 @@ YR_API int yr_scanner_scan_mem_blocks(
   }
   else
   {
+    // A previous scan that returned ERROR_BLOCK_NOT_READY and was never
+    // resumed left its matches and its notebook behind, discard them.
+    if (scanner->matches_notebook != NULL)
+    {
+      _yr_scanner_clean_matches(scanner);
+      yr_notebook_destroy(scanner->matches_notebook);
+      scanner->matches_notebook = NULL;
+    }
+
     // The entry point found in a previous scan must not survive into this one.
     scanner->entry_point = YR_UNDEFINED;
 
